@@ -3,16 +3,27 @@
    Model/Attr.v (hand): attribute table, constructors, created-queue report; tied exhaustively (finite domain)."""
 import common
 import driver
+from props import c18_frames   # C18-FRAMES extension (worker): get_specific / assert_queue clause, see props/c18_frames.py
 
 PROPERTIES_FILE = "Properties/Properties_C18.v"
 COQ_DEPS = ["Proofs/Qos_proofs.vo", "Proofs/Attr_proofs.vo"]
 GEN_MODULES = ["Gen_qos"]
+COQ_DEPS += ["Proofs/Frames_proofs.vo"]   # C18-FRAMES extension
+GEN_MODULES += ["Gen_dqstate"]            # C18-FRAMES extension: Model/Frames.v calls the generated _dq_state_drain_locked_by
 LEVEL = "proof"
 TRUSTED = [
     "Model/Attr.v is hand-written; its tie is the exhaustive run over every entry of _dispatch_queue_attrs (and NULL): "
     "to_info fields, every constructor on an argument grid, and the values reported by a queue created from the entry",
     "root queue addresses are abstracted as 4096+index (injective, non-null)",
     "NOT covered yet: dispatch_get_specific / dispatch_assert_queue over hierarchies (thread frames) — see DESIGN.md, listed as the partial part of C18",
+]
+# C18-FRAMES extension (supersedes the "NOT covered yet" line above, which the lead may delete when merging):
+TRUSTED += [
+    "Model/Frames.v is hand-written (frame stack, iterator, find_queue, get_specific, set_specific, assert_queue[_not]); tie: every probe of the "
+    "correspondence feeds the library's REAL frame stack and dq_state words to the model inside Coq and compares find_queue, get_specific, "
+    "label and the exit statuses of dispatch_assert_queue[_not] run in forked children",
+    "frames_of_path (which frames each submission path establishes) is hand-written and tied ONLY by that correspondence (partial)",
+    "object type constants of Model/Frames.v are compared with the library's on every run; _dq_state_drain_locked_by is generated (Gen_dqstate)",
 ]
 ASSUMPTIONS = ["build configuration without pthread workqueue QoS (HAVE_PTHREAD_WORKQUEUE_QOS=0): user-interactive clamps to "
                "user-initiated, maintenance to background"]
@@ -22,6 +33,25 @@ U64 = 1 << 64
 
 
 def correspond(ctx):
+    # C18-FRAMES extension: run the attribute/global-queue part (unchanged, below) and the frames part, merge the two results
+    return _merge_results(_correspond_attr(ctx), c18_frames.correspond_frames(ctx))
+
+
+def _merge_results(a, b):
+    """C18-FRAMES extension: union of two correspond() results"""
+    out = dict(a)
+    out["evaluations"] = int(a.get("evaluations", 0)) + int(b.get("evaluations", 0))
+    out["distinct_nontrivial"] = int(a.get("distinct_nontrivial", 0)) + int(b.get("distinct_nontrivial", 0))
+    out["rule"] = (a.get("rule", "") + " || FRAMES: " + b.get("rule", "")).strip()
+    out["samples"] = list(a.get("samples", []))[:6] + list(b.get("samples", []))[:6]
+    out["distribution"] = dict(a.get("distribution", {}))
+    out["distribution"]["frames"] = b.get("distribution", {})
+    out["mismatches"] = list(a.get("mismatches", [])) + list(b.get("mismatches", []))
+    out["failures"] = list(a.get("failures", [])) + list(b.get("failures", []))
+    return out
+
+
+def _correspond_attr(ctx):
     exe, msg = common.build_harness("c18_attr", ["c18_attr.c"], whitebox=True)
     if exe is None:
         return {"mismatches": [{"what": "harness build failed", "detail": msg}], "failures": [], "evaluations": 0}
@@ -102,7 +132,9 @@ def correspond(ctx):
 def replay(ctx, obj):
     exe, msg = common.build_harness("c18_attr", ["c18_attr.c"], whitebox=True)
     for f in obj.get("failures", []):
-        if f.get("call") == "dispatch_get_global_queue":
+        if str(f.get("key", "")).startswith("frames/"):     # C18-FRAMES extension
+            c18_frames.replay_frames(ctx, f)
+        elif f.get("call") == "dispatch_get_global_queue":
             r = common.run([exe], input="G %d %d\n" % tuple(f["args"]))
             print("dispatch_get_global_queue%s -> %s (recorded %s)" % (tuple(f["args"]), r.stdout.strip(), f.get("impl")))
         else:
